@@ -95,7 +95,9 @@ End Statements.
 (** The boolean checker run on the real results means exactly [case_ok]: after every step
     the real disk is the tree plus the untracked entries and nothing was skipped, the real
     snapshot returned the tree checked out, the tracked paths of the real disk read back as
-    that tree, and the from-scratch workspace has the same disk. *)
+    that tree, the from-scratch workspace has the same disk, and every observation made
+    on the real code alone (conflicted trees, other EOL / exec-bit settings: snapshot
+    fixpoint and path independence, recorded as booleans by the harness) holds. *)
 Theorem C24_checker_spec : forall c, C24Chk.okb c = true <-> case_ok c.
 Proof. exact okb_spec. Qed.
 
